@@ -102,7 +102,7 @@ def permRow [Zero α] (A : Csr α) (p qinv : Array Nat) (i : Nat) : List (Nat ×
 def permute [Zero α] (A : Csr α) (p q : Array Nat) : Option (Csr α) :=
   if p.size = 0 ∧ q.size = 0 then some A
   else if p.size ≠ A.rows ∨ q.size ≠ A.cols then none
-  else if A.isArrayless then some A     -- intended behaviour; the real code dereferences a null row_ptr (finding)
+  else if A.isArrayless then some A     -- intended behaviour; the real code dereferences a null row_ptr (c02-edge:D1)
   else some (ofRows A.rows A.cols ((List.range A.rows).map (A.permRow p (invPerm q))))
 
 /-! ### `SparseMatrixBanded::convert(const SparseMatrixCSR &)` -/
@@ -131,9 +131,10 @@ def toBanded [Zero α] (A : Csr α) : Option (Banded α) :=
 
 /-! ### `SparseMatrixCSCR::convert(const MT_ &)` with `MT_ = SparseMatrixCSR` -/
 
-/-- The value/column arrays are filled with `ta.set_line(i, pval + prow_ptr[i], …)` where `prow_ptr` is the
-    *compressed* row pointer indexed by the *uncompressed* row `i`; this is only right when no empty row precedes a
-    non-empty one (finding; the generator keeps to that class, where the result is the list-level one below). -/
+/-- used rows get consecutive compressed indices `k`; `prow_ptr[k+1] = offset + length`, `prow_numbers[k] = i`; then
+    `for k < used_rows: ta.set_line(prow_numbers[k], pval + prow_ptr[k], pcol_ind + prow_ptr[k], 0)` copies row
+    `prow_numbers[k]` to its compressed slot.  (An entry-free source without arrays makes the real code dereference a
+    null `row_ptr` — known finding c02-edge:D3; the model shows the intended entry-free result.) -/
 def toCscr [Zero α] (A : Csr α) : Cscr α :=
   let used := (List.range A.rows).filter fun i => A.rowBegin i < A.rowEnd i
   let rs := used.map A.rowList
@@ -194,11 +195,23 @@ def toCsr [Zero α] (A : Bcsr α) : Csr α :=
   Csr.ofRows (A.rows * A.bh) (A.cols * A.bw)
     (((List.range A.rows).map fun orow => (List.range A.bh).map fun row => A.podRow orow row).flatten)
 
+/-- a BCSR container without arrays (`SparseMatrixBCSR(rows, cols)`) -/
+def isArrayless (A : Bcsr α) : Bool := A.rowPtr.isEmpty && A.colInd.isEmpty && A.val.isEmpty
+
+/-- block column indices strictly increasing inside every block row -/
+def sortedRows (A : Bcsr α) : Bool :=
+  (List.range A.rows).all fun i =>
+    (List.range' (A.rowPtr.getD i 0) (A.rowPtr.getD (i + 1) 0 - A.rowPtr.getD i 0 - 1)).all fun k =>
+      A.colInd.getD k 0 < A.colInd.getD (k + 1) 0
+
+/-- structurally valid block layout, or no layout arrays at all -/
+def valid (A : Bcsr α) : Bool := A.isArrayless || (A.wf && A.sortedRows)
+
 /-- `SparseMatrixBCSR<BH,BW>::transpose(const SparseMatrixBCSR<BW,BH> & x)` (`A` is `x`): the same counting sort as
     CSR on the block pattern, each block transposed (`set_transpose`).  The entry-free early-out is
-    `SparseMatrixBCSR(x.rows(), x.columns())` — dimensions *not* swapped (finding), modelled as written. -/
+    `SparseMatrixBCSR(x.columns(), x.rows())`. -/
 def transpose [Zero α] (A : Bcsr α) : Bcsr α :=
-  if A.usedElements = 0 then ⟨A.bw, A.bh, A.rows, A.cols, #[], #[], #[]⟩ else
+  if A.usedElements = 0 then ⟨A.bw, A.bh, A.cols, A.rows, #[], #[], #[]⟩ else
   let S : Csr Nat := ⟨A.rows, A.cols, A.rowPtr, A.colInd, Array.range A.usedElements⟩
   let T := S.transpose
   let val := Array.ofFn (n := A.usedElements * A.bh * A.bw) fun idx =>
